@@ -235,6 +235,7 @@ func (c *Ctx) Fail(sig, msg string, detail interface{}) {
 
 // FailCase records a violation for an explicit case id.
 func (c *Ctx) FailCase(id, sig, msg string, detail interface{}) {
+	sig = strings.ReplaceAll(sig, " ", "-")
 	c.mu.Lock()
 	defer c.mu.Unlock()
 	c.res.NViol++
